@@ -638,11 +638,12 @@ func main() {
 	out := flag.String("out", "", "")
 	replay := flag.String("replay", "", "")
 	deep := flag.Int("deep", 0, "child mode: nesting depth of the deep-nesting probe")
+	deepKind := flag.String("deep-kind", "nest", "")
 	deepTarget := flag.String("deep-target", "ParseQuery", "")
 	deepShape := flag.String("deep-shape", "paren", "")
 	flag.Parse()
 	if *deep > 0 {
-		deepChild(*deep, *deepTarget, *deepShape)
+		deepChild(*deepKind, *deepTarget, *deepShape, *deep)
 		return
 	}
 	if *out == "" {
@@ -734,8 +735,13 @@ func main() {
 	// (h) stage 3: raw strings through the real legacy ParseQuery / ParseAggregationFilter against
 	// the rune-level model of Legacy.v (outcome and full AST with its tokens)
 	legacyCases(w, r, *tier)
-	// (i) nesting depth far beyond anything evaluated in Coq, in a child process
-	deepProbe(w, 3000000)
+	// (i) nesting limit: boundary (limit-1 accepted, limit rejected) and 3,000,000 levels in a child
+	// process (must be an error, process alive), both parsers, brackets and NOTs
+	nestingProbe(w, *tier == "thorough")
+	// (j) flat chain of 10^7 operators (known finding), thorough tier only
+	if *tier == "thorough" {
+		flatChainProbe(w)
+	}
 	if err := w.Close(); err != nil {
 		panic(err)
 	}
@@ -765,9 +771,13 @@ func doReplay(w *casefile.Writer, path string) {
 		in = rp.Replay.Input
 	}
 	q, _ := in["query"].(string)
-	if d, ok := in["depth"].(float64); ok {
-		// the deep-nesting finding: re-run the child-process probe
-		deepProbe(w, int(d))
+	if pr, ok := in["probe"].(string); ok {
+		// nesting / flat-chain findings: re-run the probes
+		if pr == "flat-chain" {
+			flatChainProbe(w)
+		} else {
+			nestingProbe(w, false)
+		}
 		return
 	}
 	if hx, ok := in["query_hex"].(string); ok {
